@@ -4,7 +4,7 @@ M    TLC (MC_ParserDepth): a pushdown model of parser/compiler recursion with th
      DepthBounded (live frames <= B whatever the input length).  With chain productions counted the invariant holds; the
      configuration of the pinned code (MC_ParserDepth_pinned.cfg, chains not counted) violates it: the model names the
      shapes that drive unbounded recursion.  The model's prediction for every (shape, n) of the ladder is emitted.
-S→I  every shape (16 nested productions, 8 chain productions) at sizes 1, 2, 39, 40, 41, 100, 400, 10^3, 10^4, 10^5 through
+S→I  every shape (23 nested productions, 8 chain productions) at sizes 1, 2, 39, 40, 41, 100, 400, 10^3, 10^4, 10^5 through
      add_raw_templates (and render_str for the small ones) in a watched process: the process must survive, the result is
      Ok or a syntax error, rejection is monotone in n, nested shapes are refused beyond a measured limit <= B, and the
      recursion gauge (cfg(tera_verif) hook: live parser/compiler frames) stays <= B.
@@ -55,6 +55,21 @@ def shape_src(shape, n):
         return COMP + "{% <c> %}" * n + "x" + "{% </c> %}" * n
     if shape == "comprehension":
         return "{{ " + "[x for x in " * n + "[1]" + "]" * n + " }}"
+    COMPA = "{% component a(p=1, ...rest) %}x{% endcomponent a %}"
+    if shape == "component_spread":
+        return COMPA + "{{ " + "<a {..." * n + "m" + "} />" * n + " }}"
+    if shape == "component_attr":
+        return COMPA + "{{ " + "<a p={" * n + "1" + "} />" * n + " }}"
+    if shape == "map_spread":
+        return "{{ " + "{..." * n + "m" + "} " * n + " }}"
+    if shape == "filter_arg":
+        return "{{ " + "1 | default(value=" * n + "1" + ")" * n + " }}"
+    if shape == "test_arg":
+        return "{{ " + "1 is divisible_by(divisor=" * n + "1" + ")" * n + " }}"
+    if shape == "slice_bound":
+        return "{{ " + "a[" * n + "0" + ":]" * n + " }}"
+    if shape == "opt_subscript":
+        return "{{ " + "a?[" * n + "0" + "]" * n + " }}"
     if shape == "elif":
         return "{% if 0 %}a" + "{% elif 0 %}a" * n + "{% endif %}"
     if shape == "binop":
